@@ -43,6 +43,7 @@ def make_data(cc, rng, n):
     structure = [(0, list(range(100, 100 + rng.choice([2, 3, 5])))), (1, list(range(200, 200 + rng.choice([2, 4, 7]))))]
     if rng.random() < 0.3:
         structure[1] = (1, [1500000321, 2000000011, 1999999999][:rng.choice([2, 3])])       # hashed-id sized codes (sums exceed int32)
+        structure[0] = (0, [1400000007, 2100000001, 900000011][:rng.choice([2, 3])])
     X = cc.generate_data(nf, n, cardinality=rng.choice([3, 5, 8]), structure=structure, ensure_rep=True, seed=rng.randrange(1000))
     return X
 
